@@ -26,3 +26,108 @@ Print Assumptions c20_default_hasher_sites_allowlisted.
 Theorem c20_inventory_nonempty : hash_aliases <> [].
 Proof. exact inventory_nonempty. Qed.
 Print Assumptions c20_inventory_nonempty.
+
+(** ------------------------------------------------------------------------------------------
+    Session 4: an executable model of iteration-order determinism (Det/IterModel.v), tied to the
+    source through the regenerated iteration-site / nondeterminism-source inventories of
+    gen/DetFacts.v (translator/src/x_det.rs) and their reviewed classification (Det/Sites.v). *)
+Require Import Verif.gen.DetFacts Verif.Det.IterModel Verif.Det.IterProofs Verif.Det.Sites.
+
+(** (a) an insertion-ordered container (IndexMap/IndexSet) shows the hasher-free replay of its
+    operation history: for EVERY hasher and initial capacity *)
+Theorem c20_insertion_ordered_iteration_any_hasher :
+  forall (h : nat -> nat) (nb0 : nat) (ops : list op), im_iter (im_run h nb0 ops) = ref_run ops.
+Proof. exact im_iter_is_history. Qed.
+Print Assumptions c20_insertion_ordered_iteration_any_hasher.
+
+(** (b) a bucket-ordered table (hashbrown) shows an order that is a function of (history, hasher
+    VALUES, capacity policy): two processes that agree on those agree on the order *)
+Theorem c20_bucket_iteration_function_of_history_seed_policy :
+  forall (h1 h2 : nat -> nat) (pol1 pol2 : policy) (ops : list op),
+    (forall k, h1 k = h2 k) -> pol1 = pol2 ->
+    t_iter (t_run h1 pol1 ops) = t_iter (t_run h2 pol2 ops).
+Proof. exact t_iter_function_of_history_seed_policy. Qed.
+Print Assumptions c20_bucket_iteration_function_of_history_seed_policy.
+
+(** (b') a sharded map (DashMap): additionally a function of the shard count *)
+Theorem c20_sharded_iteration_function_of_history_seed_policy_shards :
+  forall (h1 h2 : nat -> nat) (n1 n2 : nat) (pol1 pol2 : policy) (ops : list op),
+    (forall k, h1 k = h2 k) -> n1 = n2 -> pol1 = pol2 ->
+    sh_iter (sh_run h1 n1 pol1 ops) = sh_iter (sh_run h2 n2 pol2 ops).
+Proof. exact sh_iter_function_of_history_seed_policy_shards. Qed.
+Print Assumptions c20_sharded_iteration_function_of_history_seed_policy_shards.
+
+(** process level: a container class whose hasher values / capacity policy / shard count do not
+    vary with the environment (seed, CPUs, address-space base) shows the same order in every
+    process; an insertion-ordered class needs no hypothesis at all *)
+Theorem c20_fixed_class_reproducible :
+  forall c : cmodel, env_fixed c -> forall e1 e2 ops, observe c e1 ops = observe c e2 ops.
+Proof. exact observe_env_independent. Qed.
+Print Assumptions c20_fixed_class_reproducible.
+
+(** (c) with a per-process seed the order is NOT reproducible (witness evaluated by the kernel) *)
+Theorem c20_seeded_bucket_order_refuted :
+  exists e1 e2 ops, observe class_seeded_bucket e1 ops <> observe class_seeded_bucket e2 ops.
+Proof. exact seeded_bucket_order_refuted. Qed.
+Print Assumptions c20_seeded_bucket_order_refuted.
+
+(** (c') with the SAME fixed hasher but the default DashMap shard count (a function of the CPUs the
+    process may use) the order is not reproducible either: the shape of finding F13 *)
+Theorem c20_dash_default_order_refuted :
+  exists e1 e2 ops, e_seed e1 = e_seed e2 /\
+    observe class_dash_default e1 ops <> observe class_dash_default e2 ops.
+Proof. exact dash_default_order_refuted. Qed.
+Print Assumptions c20_dash_default_order_refuted.
+
+(** the two source classes that need no review are exactly those the model proves reproducible *)
+Theorem c20_det_class_sound : forall c m, class_det c = true -> class_models c m ->
+  forall e1 e2 ops, observe m e1 ops = observe m e2 ops.
+Proof. exact det_class_sound. Qed.
+Print Assumptions c20_det_class_sound.
+
+(** TIE: every iteration site of the current source (regenerated) is over a theorem-backed class
+    or is a reviewed site (same file, fn, receiver, class and count) *)
+Theorem c20_iter_sites_classified : forall s, In s iter_sites ->
+  class_det (site_class s) = true \/ In s reviewed_sites.
+Proof. exact iter_sites_classified_spec. Qed.
+Print Assumptions c20_iter_sites_classified.
+
+(** ... and no reviewed entry is stale *)
+Theorem c20_reviewed_sites_current : reviewed_all_current = true.
+Proof. exact reviewed_all_current_true. Qed.
+Print Assumptions c20_reviewed_sites_current.
+
+(** every hash-container alias of the engine crates is insertion-ordered, fixed-hasher bucket
+    ordered, or the fixed-hasher sharded map *)
+Theorem c20_det_aliases_ok : det_aliases_ok = true.
+Proof. exact det_aliases_ok_true. Qed.
+Print Assumptions c20_det_aliases_ok.
+
+(** TIE: clock / rng / CPU-count / pointer-formatting / environment / pid / raw-address reads of
+    the current source are exactly the reviewed table (file, kind, count) *)
+Theorem c20_nd_sources_reviewed : nd_sources_reviewed = true.
+Proof. exact nd_sources_reviewed_true. Qed.
+Print Assumptions c20_nd_sources_reviewed.
+
+Theorem c20_no_rng_ptrfmt_pid :
+  nd_kind_absent NdRng = true /\ nd_kind_absent NdPtrFmt = true /\ nd_kind_absent NdPid = true.
+Proof. exact nd_no_rng_ptrfmt_pid. Qed.
+Print Assumptions c20_no_rng_ptrfmt_pid.
+
+(** the host CPU count ([available_parallelism] / num_cpus) is read only where the DEFAULT thread pool
+    is sized; everything else consults the pool size (1 in the single-threaded configuration) *)
+Theorem c20_host_cpu_count_read_only_for_pool_default :
+  host_cpu_reads = [("egglog-bridge/src/lib.rs"%string, NdHostCpus, 1)].
+Proof. exact host_cpu_reads_only_pool_default. Qed.
+Print Assumptions c20_host_cpu_count_read_only_for_pool_default.
+
+(** non-vacuity *)
+Example c20_scans_nonempty :
+  50 <= iter_sites_files_scanned /\ 50 <= nd_sources_files_scanned /\ 50 <= List.length iter_sites.
+Proof. exact scans_nonempty. Qed.
+Example c20_fx_bucket_order_not_insertion : observe class_fx_bucket env_a hist3 <> ref_run hist3.
+Proof. exact fx_bucket_order_not_insertion. Qed.
+Example c20_fx_bucket_order_depends_on_history :
+  exists ops1 ops2, ref_run ops1 = ref_run ops2 /\
+    observe class_fx_bucket env_a ops1 <> observe class_fx_bucket env_a ops2.
+Proof. exact fx_bucket_order_depends_on_history. Qed.
